@@ -70,6 +70,11 @@ def run_wrap(case):
     for k in range(2):
         pos = gcall(lambda: t.positions)
         check_positions(pos, inp, f'after displacement round trip {k}', TOL_TRIP)
+    # read-only derivations must leave the positions equal to the input as well
+    gcall(t.apply_drift_correction)
+    gcall(t.mean_squared_displacement)
+    gcall(t.center_of_mass)
+    check_positions(gcall(lambda: t.positions), inp, 'after drift correction / msd / centre of mass', TOL_TRIP)
     # volume path relies on 0 <= positions < 1
     res = float(min(np.linalg.norm(v) for v in np.array(case['lattice']['matrix']))) / 2.5
     vol = gcall(t.to_volume, resolution=res, clause='to_volume-accepts-positions')
@@ -120,7 +125,8 @@ def run_shift(case):
     for k in A:
         if A[k].shape != B[k].shape:
             raise Violation('shift-invariance', f'{k}: shapes differ {A[k].shape} vs {B[k].shape}')
-        tol = 1e-9 * scale[k] if k != 'tracer_diffusivity' else 1e-9 * max(abs(float(A[k])), 1e-300)
+        # diffusivity: relative to the diffusivity of one squared cell edge over the run (a static atom gives pure round-off)
+        tol = 1e-9 * scale[k] if k != 'tracer_diffusivity' else 1e-9 * max(abs(float(A[k])), float(np.sum(M * M, axis=1).max()) * 1e-20 / (2 * dims * T * case['time_step']))
         if np.abs(A[k] - B[k]).max() > tol:
             raise Violation('shift-invariance', f'{k} changes by {np.abs(A[k] - B[k]).max():.3e} when coordinates are shifted by whole lattice vectors (form={form})')
     if np.abs(A['cumulative_displacements'] - want_cum).max() > 1e-9 * scale['cumulative_displacements']:
